@@ -6,6 +6,7 @@ package session
 import (
 	"bytes"
 	"fmt"
+	"os"
 	"strconv"
 	"strings"
 	"testing"
@@ -17,6 +18,7 @@ import (
 
 	"verif/fixwire"
 	"verif/peer"
+	"verif/rig"
 	"verif/stats"
 	"verif/storekit"
 	"verif/vk"
@@ -32,7 +34,7 @@ var c09Hostile = []string{"", "-1", "0", "99999", "999999999999999999999", "-922
 // mutateFrame applies field-level mutations to a valid frame and re-frames the result through
 // the engine's own stream parser, so that only wire-reachable frames are fed to the session.
 func mutateFrame(t *rapid.T, msg []byte) [][]byte {
-	n := rapid.IntRange(1, 3).Draw(t, "nmut")
+	n := rapid.SampledFrom([]int{0, 1, 1, 2, 3}).Draw(t, "nmut")
 	for i := 0; i < n; i++ {
 		fields := bytes.SplitAfter(msg, []byte{1})
 		if len(fields) > 0 && len(fields[len(fields)-1]) == 0 {
@@ -77,7 +79,14 @@ func mutateFrame(t *rapid.T, msg []byte) [][]byte {
 		}
 		msg = bytes.Join(fields, nil)
 	}
-	// recompute nothing: BodyLength / CheckSum are whatever the mutation left. Frame it like the wire would.
+	// half of the time BodyLength and CheckSum are whatever the mutations left; otherwise the frame
+	// is re-framed (when it still scans and starts with 8, 9) so that the mutated content gets past
+	// the parser and reaches the session logic
+	if n > 0 && rapid.Bool().Draw(t, "reframe") {
+		if fs, err := fixwire.Scan(msg, map[int]int{212: 213}); err == nil && len(fs) > 3 && fs[0].Tag == 8 && fs[1].Tag == 9 && fs[len(fs)-1].Tag == 10 {
+			msg = fixwire.Build(string(fs[0].Value), fs[2:len(fs)-1])
+		}
+	}
 	p := quickfix.VerifNewParser(bytes.NewReader(msg))
 	var frames [][]byte
 	for i := 0; i < 4; i++ {
@@ -98,6 +107,26 @@ func mutateFrame(t *rapid.T, msg []byte) [][]byte {
 		frames = append(frames, append([]byte(nil), f...))
 	}
 	return frames
+}
+
+// c09Limit bounds one dispatch of one frame (normally microseconds). Exceeding it is the "hangs"
+// clause of the property: the history is printed with the violation signature and the process
+// ends, because the engine goroutine is still spinning and every shrink attempt would hang again.
+const c09Limit = 60 * time.Second
+
+func c09In(s *sim, f []byte, what string) rig.StepResult {
+	st, hung := s.r.InWatched(f, c09Limit)
+	if hung {
+		sig := "C09/session/hang"
+		msg := fmt.Sprintf("the session did not return from %s within %v\nframe %s\n%s", what, c09Limit, vk.Show(f), s.history())
+		if vk.IsKnownOpen("C09", sig) {
+			fmt.Printf("KNOWN-HANG %s\n", sig)
+			os.Exit(0)
+		}
+		fmt.Printf("--- FAIL: TestC09_Session\nVIOLATION-SIG %s :: %s\n", sig, strings.ReplaceAll(msg, "\n", "\n    "))
+		os.Exit(1)
+	}
+	return st
 }
 
 func c09SessionProperty(t *rapid.T) {
@@ -152,32 +181,61 @@ func c09SessionProperty(t *rapid.T) {
 			s.observe(st, s.ctxFor("sessiontime", nil, false))
 		}
 	}
-	// a valid frame of some type, then mutated
-	T := s.r.T()
-	typ := rapid.SampledFrom([]string{"D", "0", "1", "2", "3", "4", "5", "A", "8"}).Draw(t, "type")
-	var body []fixwire.Field
-	switch typ {
-	case "D":
-		body = []fixwire.Field{fixwire.F(11, "id"), fixwire.F(21, "1"), fixwire.F(55, "IBM"), fixwire.F(54, "1"), fixwire.F(60, s.p.Stamp(time.Now())), fixwire.F(38, "10"), fixwire.F(40, "1")}
-	case "1":
-		body = []fixwire.Field{fixwire.F(112, "x")}
-	case "2":
-		body = []fixwire.Field{fixwire.F(7, "1"), fixwire.F(16, "0")}
-	case "3":
-		body = []fixwire.Field{fixwire.F(45, "1"), fixwire.F(58, "t")}
-	case "4":
-		body = []fixwire.Field{fixwire.F(123, "Y"), fixwire.F(36, strconv.Itoa(T+1))}
-	case "A":
-		body = s.p.LogonBody(30, false)
-	case "8":
-		body = []fixwire.Field{fixwire.F(37, "o"), fixwire.F(17, "e"), fixwire.F(150, "0"), fixwire.F(39, "0"), fixwire.F(55, "IBM"), fixwire.F(54, "1"), fixwire.F(151, "0"), fixwire.F(14, "0"), fixwire.F(6, "0")}
+	// one to three frames: each a valid frame of some type with generated (possibly odd) session
+	// semantics - numbers around the expected one, gap fills that go nowhere, resend ranges,
+	// PossDup / OrigSendingTime combinations - then mutated at field level
+	var frames [][]byte
+	seq, maxSeq := s.r.T(), 0
+	nFrames := rapid.SampledFrom([]int{1, 1, 2, 3}).Draw(t, "nframes")
+	for k := 0; k < nFrames; k++ {
+		T := s.r.T()
+		typ := rapid.SampledFrom([]string{"D", "0", "1", "2", "3", "4", "4", "5", "A", "8"}).Draw(t, "type")
+		seq = T + k + rapid.SampledFrom([]int{0, 0, 0, 1, 1, 2, -1}).Draw(t, "delta")
+		if seq < 1 {
+			seq = 1
+		}
+		if seq > maxSeq {
+			maxSeq = seq
+		}
+		around := func(label string) int {
+			v := rapid.SampledFrom([]int{T - 1, T, T + 1, seq, seq + 1, seq + 3, 0, 1, 999999, 2147483647}).Draw(t, label)
+			if v < 0 {
+				v = 0
+			}
+			return v
+		}
+		var body []fixwire.Field
+		switch typ {
+		case "D":
+			body = []fixwire.Field{fixwire.F(11, "id"), fixwire.F(21, "1"), fixwire.F(55, "IBM"), fixwire.F(54, "1"), fixwire.F(60, s.p.Stamp(time.Now())), fixwire.F(38, "10"), fixwire.F(40, "1")}
+		case "1":
+			body = []fixwire.Field{fixwire.F(112, "x")}
+		case "2":
+			body = []fixwire.Field{fixwire.F(7, strconv.Itoa(around("begin"))), fixwire.F(16, strconv.Itoa(around("end")))}
+		case "3":
+			body = []fixwire.Field{fixwire.F(45, "1"), fixwire.F(58, "t")}
+		case "4":
+			body = []fixwire.Field{fixwire.F(36, strconv.Itoa(around("newseq")))}
+			if gf := rapid.SampledFrom([]string{"Y", "Y", "N", ""}).Draw(t, "gapfill"); gf != "" {
+				body = append([]fixwire.Field{fixwire.F(123, gf)}, body...)
+			}
+		case "A":
+			body = s.p.LogonBody(30, rapid.IntRange(0, 3).Draw(t, "reset-flag") == 0 && cfg.begin != "FIX.4.0")
+		case "8":
+			body = []fixwire.Field{fixwire.F(37, "o"), fixwire.F(17, "e"), fixwire.F(150, "0"), fixwire.F(39, "0"), fixwire.F(55, "IBM"), fixwire.F(54, "1"), fixwire.F(151, "0"), fixwire.F(14, "0"), fixwire.F(6, "0")}
+		}
+		o := peer.Opt{}
+		if rapid.IntRange(0, 3).Draw(t, "possdup") == 0 {
+			o.PossDup = rapid.SampledFrom([]string{"Y", "Y", "N"}).Draw(t, "possdup-value")
+			switch rapid.SampledFrom([]string{"", "earlier", "later"}).Draw(t, "orig") {
+			case "earlier":
+				o.OrigSending = s.p.Stamp(time.Now().Add(-5 * time.Second))
+			case "later":
+				o.OrigSending = s.p.Stamp(time.Now().Add(45 * time.Second))
+			}
+		}
+		frames = append(frames, mutateFrame(t, s.p.Frame(typ, seq, body, o))...)
 	}
-	seq := T + rapid.SampledFrom([]int{0, 0, 0, 1, -1}).Draw(t, "delta")
-	if seq < 1 {
-		seq = 1
-	}
-	valid := s.p.Frame(typ, seq, body, peer.Opt{})
-	frames := mutateFrame(t, valid)
 	c.Eval()
 	c.Class("target:session")
 	c.Class("session-state:" + state)
@@ -190,7 +248,7 @@ func c09SessionProperty(t *rapid.T) {
 		tBefore, sBefore := s.r.T(), s.r.S()
 		parses := quickfix.ParseMessage(quickfix.NewMessage(), bytes.NewBuffer(append([]byte(nil), f...))) == nil
 		s.logf("GARBAGE in state %s: %s", stBefore, vk.Show(f))
-		st := s.r.In(f)
+		st := c09In(s, f, "a mutated frame in state "+stBefore)
 		if st.Panic != nil {
 			sig := "C09/session/panic/" + panicClassS(st.Panic)
 			vk.Violation(t, c, sig, "the session panicked in state %s: %v\nframe %q\n%s", stBefore, st.Panic, f, s.history())
@@ -208,12 +266,35 @@ func c09SessionProperty(t *rapid.T) {
 			}
 		}
 	}
+	// the counterparty carries on: if the session is waiting for a replay (before or because of
+	// the mutated frames) the gap is filled up to the highest number seen, which also makes the
+	// engine go through whatever it kept for later
+	if s.r.V.IsConnected() && strings.Contains(s.r.V.StateName(), "resend") {
+		hi := s.p.NextOut
+		if maxSeq+1 > hi {
+			hi = maxSeq + 1
+		}
+		for round := 0; round < 3 && s.r.V.IsConnected() && strings.Contains(s.r.V.StateName(), "resend") && s.r.T() < hi; round++ {
+			from := s.r.T()
+			gf := s.p.Frame("4", from, []fixwire.Field{fixwire.F(123, "Y"), fixwire.F(36, strconv.Itoa(hi))}, peer.Opt{PossDup: "Y", OrigSending: s.p.Stamp(time.Now())})
+			s.logf("FOLLOW-UP gap fill %d -> %d", from, hi)
+			st := c09In(s, gf, "the gap fill after the mutated frames")
+			if st.Panic != nil {
+				vk.Violation(t, c, "C09/session/panic/"+panicClassS(st.Panic), "the session panicked on the gap fill after the mutated frames: %v\n%s", st.Panic, s.history())
+			}
+			s.r.Flush()
+			c.Class("session:gap-filled-after-garbage")
+		}
+		if s.p.NextOut < s.r.T() {
+			s.p.NextOut = s.r.T()
+		}
+	}
 	c.NonTrivial(stats.Hash("session", state, cfg.String(), fmt.Sprint(frames)))
 	c.SampleClass("session/"+state, map[string]interface{}{"frames": showAll(frames), "state_after": s.r.V.StateName()})
 	// liveness: a logged-on session in its normal state still answers a TestRequest
 	if s.r.V.IsLoggedOn() && s.r.V.IsConnected() && (s.r.V.StateName() == "inSession" || s.r.V.StateName() == "pending(inSession)") {
 		id := "ALIVE" + strconv.Itoa(s.r.T())
-		st := s.r.In(s.p.Frame("1", s.r.T(), []fixwire.Field{fixwire.F(112, id)}, peer.Opt{}))
+		st := c09In(s, s.p.Frame("1", s.r.T(), []fixwire.Field{fixwire.F(112, id)}, peer.Opt{}), "a well-formed TestRequest after the mutated frames")
 		if st.Panic != nil {
 			vk.Violation(t, c, "C09/session/panic/after-garbage", "%v\n%s", st.Panic, s.history())
 		}
@@ -258,5 +339,33 @@ func panicClassS(p interface{}) string {
 func TestC09_Session(t *testing.T) {
 	rapid.Check(t, func(t *rapid.T) {
 		vk.Guard(func() { c09SessionProperty(t) })
+	})
+}
+
+// TestReplay_C09_SessionFixed: plain regression examples of repaired session-level hangs.
+func TestReplay_C09_SessionFixed(t *testing.T) {
+	vk.Guard(func() {
+		c := c09()
+		for _, begin := range []string{"FIX.4.2", "FIX.4.4"} {
+			s := newSim(t, c, simCfg{begin: begin, hb: 30, store: "memory", settings: map[string]string{}})
+			if !s.logon(0) {
+				t.Fatalf("harness: logon failed\n%s", s.history())
+			}
+			// ResendRequest whose BeginSeqNo is the smallest integer: the memory store used to
+			// iterate over the whole negative range
+			for _, b := range []string{"-9223372036854775808", "-1099511627776", "0"} {
+				f := s.p.Frame("2", s.r.T(), []fixwire.Field{fixwire.F(7, b), fixwire.F(16, "3")}, peer.Opt{})
+				st := c09In(s, f, "a ResendRequest with BeginSeqNo "+b)
+				if st.Panic != nil {
+					vk.Violation(t, c, "C09/session/panic/"+panicClassS(st.Panic), "%v\n%s", st.Panic, s.history())
+				}
+				for _, e := range s.r.Outs(st) {
+					if n, ok := fixwire.GetInt(e.Fields, 34); ok && n < 1 {
+						vk.Violation(t, c, "C09/session/nonpositive-number-sent", "frame %s\n%s", vk.Show(e.Raw), s.history())
+					}
+				}
+			}
+			s.close()
+		}
 	})
 }
